@@ -318,7 +318,11 @@ def install(lib):
             if c.t is None:
                 return VCell(VTuple([]), 'list')
             f = ufun('py_sorted_set_' + sort_tag(c.t.sort()), c.t.sort(), z3.SeqSort(c.kty.sort()))
-            s = VSeq(f(c.t), c.kty, 'list')
+            r = f(c.t)
+            kk = z3.Const('k', c.kty.sort())
+            # A-sort: the result contains exactly the members of the set
+            it.ctx.assume(z3.ForAll([kk], z3.Contains(r, z3.Unit(kk)) == z3.Select(c.t, kk)))
+            s = VSeq(r, c.kty, 'list')
             s.members_of = c
             return VCell(s, 'list')
         if isinstance(c, VTuple):
@@ -779,7 +783,7 @@ def install(lib):
             return default
         o = lib._map_opt(c)
         cell = simp(z3.Select(c.t, kt))
-        if z3.is_app(cell) and cell.decl().name() == 'none':
+        if z3.is_app(cell) and cell.decl().name().startswith('none_'):
             return default
         val = c.vty.wrap(simp(o.val(cell)))
         if isinstance(val, VCell):
